@@ -89,9 +89,9 @@ def run_history(chk, spec, how=None):
 
 
 def gen_history(rng, how=None):
-	spec = common.gen_join_spec(rng, max_rows=5, how=how or HOW)
+	spec = common.gen_join_spec_named(rng, max_rows=5, how=how or HOW)
 	while not spec["left"]["cols"][0] or not spec["right"]["cols"][0]:
-		spec = common.gen_join_spec(rng, max_rows=5, how=how or HOW)
+		spec = common.gen_join_spec_named(rng, max_rows=5, how=how or HOW)
 	# unique column names so that name-addressed edits hit what the model expects
 	for side, pre in ((spec["left"], "l"), (spec["right"], "r")):
 		seen = set()
@@ -136,6 +136,23 @@ def key_seqs(maxlen=3, dom=(None, 1, 2)):
 			yield seq
 
 
+def ratio_cases(chk, how, count):
+	rng = chk.rng
+	# one side much larger than the other (library build-side choices by size), duplicate keys on the small side
+	for _ in range(count):
+		ns = rng.choice([1, 2, 3])
+		nb = rng.choice([10 * ns, 10 * ns + 3, 16 * ns, 40])
+		small = [rng.choice([1, 2, None]) if rng.random() < 0.8 else 3 for _ in range(ns)]
+		if ns > 1 and rng.random() < 0.6:
+			small[-1] = small[0]
+		big = [rng.choice([1, 2, 3, 4, None]) for _ in range(nb)]
+		lk, rk = (small, big) if rng.random() < 0.7 else (big, small)
+		spec = {"op": "join", "how": how, "left": {"names": ["k", "lid"], "cols": [lk, [f"L{i}" for i in range(len(lk))]]},
+			"right": {"names": ["r", "rid"], "cols": [rk, [f"R{i}" for i in range(len(rk))]]}, "lon": ["k"], "ron": ["r"],
+			"key_mode": rng.choice(["name", "vector"]), "single_as_scalar": rng.random() < 0.5, "expect": "many_to_many"}
+		chk.case("join", spec, "sampled-size-ratio")
+
+
 def run_family(chk, how, nsample, nhist):
 	rng = chk.rng
 	idx = 0
@@ -149,10 +166,21 @@ def run_family(chk, how, nsample, nhist):
 	for _ in range(nsample):
 		spec = common.gen_join_spec(rng, max_rows=rng.choice([4, 8, 12]) if chk.quick() else rng.choice([4, 8, 12, 40, 200]), how=how)
 		chk.case("join", spec, "sampled")
+	ratio_cases(chk, how, 40 if chk.quick() else 300)
 	for _ in range(nhist):
 		chk.case("history", gen_history(rng, how), "history")
+
+
+def run_chain(chk, spec):
+	from . import c10
+	c10.run_chain(chk, spec)
+
+
+RUNNERS["chain"] = run_chain
 
 
 def run(chk):
 	recompute.add_cases(chk, "C09")
 	run_family(chk, HOW, 500 if chk.quick() else 2500, 150 if chk.quick() else 800)
+	from . import c10
+	c10.chain_cases(chk, 150 if chk.quick() else 1000, ["inner"], ["inner"])
